@@ -41,7 +41,7 @@ N = {"quick": 160000, "thorough": 2400000}
 TIME_LIMIT = {"quick": 40, "thorough": 560}
 SHARDS = 16
 REACH = {
-    "quick": {"branch_rule_checked": 8000, "hinted_writes": 300, "wrong_name_hints": 100,
+    "quick": {"branch_rule_checked": 8000, "hinted_writes": 300, "wrong_name_hints": 100, "wide_union_cases": 25,
               "record_ties": 100, "float_double_deferral": 50, "closure_roundtrips": 4000,
               "closure_named_record": 100, "closure_named_enum": 100, "closure_named_fixed": 100,
               "determinism_cross_process": 500, "tags_checked": 1000},
@@ -79,6 +79,52 @@ def tie_case(rng):
         js = u
         d = {k: rng.randint(-5, 5) for k in rng.sample(pool, rng.randint(0, 4))}
     return js, d, {"record_tie"}
+
+
+def similar_names_case(rng):
+    """Record branches whose names are suffixes / prefixes / namespace variants of one another,
+    written with a hint: the hint selects exactly the branch of that full name, and a string
+    that merely resembles a name (suffix, short name of a namespaced record) is no branch."""
+    pool = ["a", "b", "c"]
+    names = rng.sample([("", "Item"), ("", "SubItem"), ("", "ItemX"), ("t", "Item"), ("t.s", "Item"), ("s", "SubItem"), ("", "tItem"), ("shop", "Refund"), ("", "fund")],
+                       rng.randint(2, 5))
+    branches = []
+    for ns, short in names:
+        fields = [{"name": f, "type": ["null", "int"]} if rng.random() < 0.5 else {"name": f, "type": "int", "default": 0}
+                  for f in rng.sample(pool, rng.randint(1, 3))]
+        b = {"type": "record", "name": short, "fields": fields}
+        if ns:
+            b["namespace"] = ns
+        else:
+            b["namespace"] = ""
+        branches.append(b)
+    u = branches + rng.choice([[], ["null"], ["string"]])
+    rng.shuffle(u)
+    fulls = [(ns + "." + short) if ns else short for ns, short in names]
+    body = {k: rng.randint(-5, 5) for k in rng.sample(pool, rng.randint(0, 3))}
+    feats = {"similar_names"}
+    if rng.random() < 0.6:
+        target = rng.choice(fulls)
+        feats.add("hint_exact_among_similar")
+    else:
+        # strings that resemble a branch name without being one
+        cands = set()
+        for f in fulls:
+            cands |= {f[1:], f[2:], f.rsplit(".", 1)[-1], "x" + f, f + "x", f.lower(), "." + f}
+        cands -= set(fulls)
+        cands.discard("")
+        target = rng.choice(sorted(cands))
+        feats.add("wrong_hint")
+    if rng.random() < 0.5:
+        d = dict(body)
+        d["-type"] = target
+        feats.add("hint_dash_type")
+    else:
+        d = (target, body)
+        feats.add("hint_tuple")
+    if rng.random() < 0.5:
+        return {"type": "record", "name": "Top", "namespace": "", "fields": [{"name": "u", "type": u}]}, {"u": d}, feats
+    return u, d, feats
 
 
 def float_case(rng):
@@ -408,6 +454,27 @@ def run_shard(spec):
         case = {"schema": info["schema"], "node": node, "datum": info["datum"], "features": feats | {"wrong_hint"} if "no-branch" in spec["replay"]["kind"] else feats}
         one_case(sh, fa, rng, case, info.get("disable_tuple_notation", False), det_log)
         return sh.result()
+    if spec["shard"] == 0:
+        # unions wide enough for two-byte branch indices, with and without hints
+        from ..gen.cases import boundary_cases
+        from ..ref.schema import hint_name, deref
+        for js, d, feats in boundary_cases():
+            if "wide_union" not in feats or not isinstance(js, list):
+                continue
+            node, env = RS.build(js)
+            variants = [d]
+            if not (type(d) is tuple):
+                try:
+                    idx = RC.choose_branch(node, d)[0]
+                    variants.append((hint_name(node.branches[idx]), d))
+                    if isinstance(d, dict):
+                        variants.append(dict(d, **{"-type": hint_name(node.branches[idx])}))
+                except Exception:
+                    pass
+            for v in variants:
+                hinted = {"hint_tuple"} if type(v) is tuple else ({"hint_dash_type"} if isinstance(v, dict) and "-type" in v else set())
+                sh.run_case(one_case, sh, fa, rng, {"schema": js, "node": node, "datum": v, "features": set(feats) | hinted}, False, det_log)
+                sh.count("wide_union_cases")
     i = 0
     while i < spec["n"] and not sh.out_of_time():
         i += 1
@@ -416,7 +483,11 @@ def run_shard(spec):
             js, d, feats = tie_case(rng)
             node, env = RS.build(js)
             case = {"schema": js, "node": node, "datum": d, "features": set(feats)}
-        elif x < 0.2:
+        elif x < 0.16:
+            js, d, feats = similar_names_case(rng)
+            node, env = RS.build(js)
+            case = {"schema": js, "node": node, "datum": d, "features": set(feats)}
+        elif x < 0.22:
             js, d, feats = float_case(rng)
             node, env = RS.build(js)
             case = {"schema": js, "node": node, "datum": d, "features": set(feats)}
